@@ -375,6 +375,15 @@ ReplyWith(s, t, code, r) ==
 
 ReplyEv(s, t, code) == \E r \in {ss[s], PreAbor(ss[s])} : ReplyWith(s, t, code, r)
 
+\* what a reply tells the client beyond its code: PWD's directory, MLST's facts
+PayloadOk(s, code, pay) ==
+  LET r == ss[s] IN
+  /\ (pay.hasdir /\ r.h.v = "pwd" /\ code = "257" => pay.dir = r.cwd)
+  /\ (pay.hasfacts /\ r.h.v = "mlst" /\ code = "250" /\ r.logged =>
+        LET p == RPath(r) IN
+        /\ pay.ftype = (IF IsDirT(tree, p) THEN "dir" ELSE "file")
+        /\ (IsFileT(tree, p) => pay.fsize = Len(tree.f[p])))
+
 Confined(r, p) == r.user # "" /\ IsPrefix(UCfg[r.user].base, p)
 
 ModeFor(w) == IF w.v = "retr" THEN "rb" ELSE IF w.off > 0 THEN "r+b" ELSE IF w.v = "appe" THEN "ab" ELSE "wb"
